@@ -974,6 +974,7 @@ func tableConfigs() []struct {
 		{"mtu", 4, []string{"1500"}}, {"mtu", 4, []string{"576"}}, {"mtu", 4, []string{"65535"}}, {"mtu", 4, []string{"9000"}},
 		{"searchdomains", 4, []string{"example.org"}}, {"searchdomains", 4, []string{"a.example.org", "b.example.net", "c"}},
 		{"searchdomains", 6, []string{"example.org"}}, {"searchdomains", 6, []string{"a.example.org", "corp.example.net"}},
+		{"staticroute", 4, []string{"10.0.0.0/8,10.0.0.1", "10.0.0.0/24,10.0.0.2", "0.0.0.0/0,10.0.0.254", "0.0.0.0/1,10.0.0.3", "10.0.0.0/16,10.0.0.1"}},
 		{"staticroute", 4, []string{"10.1.130.3/17,10.0.0.1"}}, {"staticroute", 4, []string{"192.168.1.77/26,10.0.0.9", "172.17.0.0/12,10.0.0.1", "10.9.8.7/16,10.0.0.2"}},
 		{"server_id", 4, []string{"::ffff:192.0.2.1"}}, {"server_id", 4, []string{"0:0:0:0:0:ffff:c000:201"}},
 		{"router", 4, []string{"::ffff:10.0.0.1"}}, {"dns", 4, []string{"::ffff:8.8.8.8", "1.1.1.1"}}, {"netmask", 4, []string{"::ffff:255.255.255.0"}},
